@@ -1669,18 +1669,17 @@ def warmup():
     for d in DTYPES:
         for form, mapk, cs in (('a', 'n', None), ('as', 'n', None), ('fs', 'f', 2)):
             cases.append(_toml([1, 2], [2, 3], [d], form, mapk, cs))
-        cases.append({'op': 'omi', 'typed': 1, 'L': [1, 2], 'R': [2, 3], 'lu': 0, 'ru': 0, 'n': 1, 'form': 'a', 'ldt': [d], 'rdt': [d],
-                      'lsrcs': [[1, 1]], 'rsrcs': [[1, 1]]})
         cases.append({'op': 'ml', 'typed': 1, 'L': [1, 2], 'R': [2, 2], 'form': 'a', 'wr': 0, 'rp': [['n', [1, 1], d]]})
     for a, b in WIDEN:
         cases.append(_toml([1, 2], [2, 3], [a], 'fs', 'f', 2, kdt=[b]))
-    for km in KMAPS:
+    seen = set()
+    for km in KMAPS:               # one specialisation of the key kernels per key dtype (the rarer ones compile on first use)
+        if KMAPS[km][0] in seen:
+            continue
+        seen.add(KMAPS[km][0])
         for lu in (0, 1):
             for form, mapk, cs in (('a', 'n', None), ('fs', 'f', 2)):
                 cases.append(_toml([1, 2], [2, 3], ['int32'], form, mapk, cs, km=km, lu=lu))
-        for lu, ru in ((0, 0), (0, 1), (1, 0), (1, 1)):
-            cases.append({'op': 'omi', 'L': [1, 2], 'R': [2, 3], 'lu': lu, 'ru': ru, 'n': 1, 'form': 'a', 'km': km,
-                          'lsrcs': [[5, 6]], 'rsrcs': [[7, 8]]})
     for c in cases:
         try:
             run(c)
